@@ -829,7 +829,13 @@ func (g *gen) genRecover(n int) {
 			ids := g.idSet(k, g.idClass())
 			sigs := make([]string, k)
 			for j := range sigs {
-				sigs[j] = hx.Hex(g.point(g.pointClass()))
+				pc := g.pointClass()
+				// off-curve coordinates do not obey a group law: with 3+ terms the Go result depends
+				// on the (random) map iteration order, so there is nothing deterministic to compare
+				for k >= 3 && pc == "offcurve" {
+					pc = g.pointClass()
+				}
+				sigs[j] = hx.Hex(g.point(pc))
 			}
 			g.count("recover.arbitrary")
 			g.emit("recover " + strconv.Itoa(k) + " - " + interleave(ids, sigs))
@@ -897,6 +903,11 @@ func (g *gen) dkgLineIds(n int, cl string, arrivals func(k int) []int, idsOut *[
 	}
 	msg := g.r.Bytes(g.r.Pick(0, 1, 32, 32, 50))
 	arr := arrivals(d.k)
+	if g.out != nil && collides(ids) && len(arr) > d.k {
+		// correspondence stream: with ids congruent mod r the result depends on which k-subset the
+		// Go code draws (the known finding), so only the deterministic case m = k is compared
+		arr = arr[:d.k]
+	}
 	w := []string{"dkg", hx.Hex(msg), hx.Hex(gh), hx.Hex(hashPoint(msg)), strconv.Itoa(d.k), strconv.Itoa(n), strconv.Itoa(len(arr)), g.jsFor(len(arr), d.k)}
 	for _, s := range seeds {
 		w = append(w, hx.Hex(s))
@@ -1016,10 +1027,23 @@ func search(r *hx.Rng, thorough bool, hintLines []string) searchOut {
 		if len(so.Samples) < 3 {
 			so.Samples = append(so.Samples, map[string]string{"op": trunc(line, 300), "impl": trunc(ans, 300)})
 		}
+		// classify by the ids actually on the line (several generator classes can produce
+		// two ids congruent modulo the group order, e.g. 0 and r)
 		keySuffix := ""
-		if cl == "collide" {
-			keySuffix = "-ids-congruent-mod-order"
+		if w := strings.Fields(line); len(w) > 8 {
+			if n, ok := tokDec(w[5]); ok && len(w) >= 8+2*n {
+				var ids []*big.Int
+				for _, t := range w[8+n : 8+2*n] {
+					if x, ok := tokNat(t); ok {
+						ids = append(ids, x)
+					}
+				}
+				if collides(ids) {
+					keySuffix = "-ids-congruent-mod-order"
+				}
+			}
 		}
+		_ = cl
 		if strings.HasPrefix(ans, "PANIC") || !strings.Contains(ans, " ok ") {
 			addV("dkg-run-failed"+keySuffix, "DKG/recovery did not complete: "+trunc(ans, 200), line)
 			return
@@ -1284,7 +1308,7 @@ func main() {
 		g.count("corpus")
 		g.emit(l)
 	}
-	scale := hx.ArgInt(a, "scale", 1)
+	scale := hx.ArgInt(a, "scale", 3)
 	if thorough {
 		scale *= 8
 	}
